@@ -39,6 +39,7 @@
 #include <signal.h>
 #include <pthread.h>
 #include <stdarg.h>
+#include <sanitizer/common_interface_defs.h>
 /* the harness itself must never be hit by an injected allocation failure */
 void *__real_malloc (size_t n);
 void *__real_calloc (size_t a, size_t b);
@@ -76,6 +77,7 @@ struct beh {           /* behaviour for one request */
   int ur_n, ur_rid;    /* reply at upload call n (or -1) */
   int us_n, us_k;      /* suspend at upload call n for k rounds */
   int da;              /* call the digest-auth info API at the first call */
+  int ba;              /* call the basic-auth info API at the first call */
 };
 
 struct snap { const char *p; size_t len; uint8_t *copy; };
@@ -127,6 +129,9 @@ static int shim_quiet;                /* no `sys` lines (threaded modes) */
 
 /* allocation failures */
 static unsigned long alloc_count, alloc_fail_at; static int alloc_armed;
+/* the library function whose allocation was made to fail (symbolised in-process by the sanitizer
+   run-time; MHD_calloc_ is looked through), and the libc entry point it used */
+static char alloc_site[128] = "-"; static const char *alloc_via = "-";
 static int alloc_should_fail (void)
 {
   if (! alloc_armed) return 0;
@@ -134,10 +139,29 @@ static int alloc_should_fail (void)
   if (alloc_fail_at && alloc_count == alloc_fail_at) { alloc_fired++; return 1; }
   return 0;
 }
+static void alloc_note_site (void *ra0, void *ra1, const char *via)
+{
+  size_t i;
+  alloc_site[0] = 0;
+  __sanitizer_symbolize_pc (ra0, "%f", alloc_site, sizeof(alloc_site));
+  if (0 == strcmp (alloc_site, "MHD_calloc_") && NULL != ra1)
+  { alloc_site[0] = 0; __sanitizer_symbolize_pc (ra1, "%f", alloc_site, sizeof(alloc_site)); via = "MHD_calloc_"; }
+  for (i = 0; alloc_site[i]; i++) if (' ' == alloc_site[i] || '\n' == alloc_site[i]) alloc_site[i] = '_';
+  if (0 == alloc_site[0]) strcpy (alloc_site, "?");
+  alloc_via = via;
+}
 void *__wrap_malloc (size_t n)
-{ if (alloc_should_fail ()) { errno = ENOMEM; return NULL; } return __real_malloc (n); }
+{
+  if (alloc_should_fail ())
+  { alloc_note_site (__builtin_return_address (0), __builtin_return_address (1), "malloc"); errno = ENOMEM; return NULL; }
+  return __real_malloc (n);
+}
 void *__wrap_calloc (size_t a, size_t b)
-{ if (alloc_should_fail ()) { errno = ENOMEM; return NULL; } return __real_calloc (a, b); }
+{
+  if (alloc_should_fail ())
+  { alloc_note_site (__builtin_return_address (0), __builtin_return_address (1), "calloc"); errno = ENOMEM; return NULL; }
+  return __real_calloc (a, b);
+}
 
 static int conn_of_fd (int fd)
 {
@@ -526,6 +550,8 @@ static int conn_index (struct MHD_Connection *mc)
   return -1;
 }
 
+static void print_held (const char *when);
+static int threaded (void);
 static void notify_conn (void *cls, struct MHD_Connection *mc, void **socket_context,
                          enum MHD_ConnectionNotificationCode toe)
 {
@@ -545,6 +571,7 @@ static void notify_conn (void *cls, struct MHD_Connection *mc, void **socket_con
   {
     int c = (int) (intptr_t) *socket_context - 1;
     out ("conn-close c=%d", c);
+    if (! threaded ()) print_held ("conn-close");
     if (c >= 0) { conns[c].mc = NULL; conns[c].started = 2; }
   }
 }
@@ -569,6 +596,21 @@ static void completed (void *cls, struct MHD_Connection *mc, void **req_cls, enu
 
 static int parse_rid (const char *s) { return atoi (s + 1); }
 
+/* The application keeps its own reference to every response object until `stop`, so that the
+   reference count can be read at any time: 1 = only the application's reference is left, i.e.
+   the connection has released the response exactly once. */
+#define MAXHELD 64
+static struct { struct MHD_Response *m; int rid; } held[MAXHELD]; static int nheld;
+static int threaded (void);
+static void print_held (const char *when)
+{
+  int i;
+  for (i = 0; i < nheld; i++)
+    out ("resp-ref rid=%d rc=%u at=%s", held[i].rid, held[i].m->reference_count, when);
+}
+static void drop_held (void)
+{ int i; for (i = 0; i < nheld; i++) MHD_destroy_response (held[i].m); nheld = 0; }
+
 static enum MHD_Result do_reply (struct MHD_Connection *mc, struct req *rq, int rid)
 {
   struct MHD_Response *m = make_resp (rid);
@@ -576,7 +618,8 @@ static enum MHD_Result do_reply (struct MHD_Connection *mc, struct req *rq, int 
   if (NULL == m) { out ("queued c=%d r=%d rid=%d -> no-response-object", rq->c, rq->r, rid); return MHD_NO; }
   q = MHD_queue_response (mc, resps[rid].code, m);
   out ("queued c=%d r=%d rid=%d code=%u -> %d", rq->c, rq->r, rid, resps[rid].code, (int) q);
-  MHD_destroy_response (m);
+  if (nheld < MAXHELD) { held[nheld].m = m; held[nheld].rid = rid; nheld++; }
+  else MHD_destroy_response (m);
   if (MHD_YES == q) rq->replied = 1;
   return q;
 }
@@ -651,6 +694,13 @@ static enum MHD_Result handler (void *cls, struct MHD_Connection *mc, const char
     printf ("dauth-user c=%d r=%d -> ", rq->c, rq->r);
     if (NULL == un) printf ("null\n");
     else { printf ("type=%d user=", (int) un->uname_type); puthexs (un->username, un->username_len); putchar ('\n'); MHD_free (un); }
+  }
+  if (!strcmp (phase, "first") && b->ba)
+  { /* allocates the result with malloc() */
+    struct MHD_BasicAuthInfo *bi = MHD_basic_auth_get_username_password3 (mc);
+    printf ("bauth-info c=%d r=%d -> ", rq->c, rq->r);
+    if (NULL == bi) printf ("null\n");
+    else { printf ("user="); puthexs (bi->username, bi->username_len); putchar ('\n'); MHD_free (bi); }
   }
   if (!strcmp (phase, "first"))
   {
@@ -832,6 +882,7 @@ static void reset_all (void)
 {
   int c, i, j;
   if (d) { MHD_stop_daemon (d); d = NULL; }
+  drop_held ();
   for (c = 0; c < MAXC; c++) { if (conns[c].used && conns[c].cfd >= 0) close (conns[c].cfd); }
   memset (conns, 0, sizeof(conns));
   for (i = 0; i < MAXRESP; i++) { for (j = 0; j < resps[i].nh; j++) { free (resps[i].h[j].n); free (resps[i].h[j].v); } }
@@ -842,6 +893,7 @@ static void reset_all (void)
   nfaults = 0; memset (faults, 0, sizeof(faults)); memset (call_count, 0, sizeof(call_count));
   memset (fired_count, 0, sizeof(fired_count)); alloc_fired = 0;
   alloc_armed = 0; alloc_count = 0; alloc_fail_at = 0; shim_quiet = 0;
+  strcpy (alloc_site, "-"); alloc_via = "-";
 }
 
 static uint8_t *unhexz (const char *s)
@@ -893,7 +945,8 @@ int main (void)
     if (!strcmp (op, "alloc-fail") && l.n >= 2 && lp_u64 (l.w[1], &a))
     { /* the a-th library allocation from now on returns NULL (0 = only count) */
       alloc_armed = 1; alloc_count = 0; alloc_fail_at = (unsigned long) a; out ("ok"); continue; }
-    if (!strcmp (op, "alloc-off")) { alloc_armed = 0; out ("allocs n=%lu fired=%lu", alloc_count, alloc_fired); continue; }
+    if (!strcmp (op, "alloc-off"))
+    { alloc_armed = 0; out ("allocs n=%lu fired=%lu site=%s via=%s", alloc_count, alloc_fired, alloc_site, alloc_via); continue; }
     if (!strcmp (op, "resp") && l.n >= 2)
     {
       int rid = atoi (l.w[1]); struct resp *r;
@@ -931,6 +984,7 @@ int main (void)
         if (kv (l.w[i], "f", &v)) strncpy (bh->f, v, sizeof(bh->f) - 1);
         else if (kv (l.w[i], "l", &v)) strncpy (bh->l, v, sizeof(bh->l) - 1);
         else if (kv (l.w[i], "da", &v)) bh->da = atoi (v);
+        else if (kv (l.w[i], "ba", &v)) bh->ba = atoi (v);
         else if (kv (l.w[i], "u", &v))
         { char *s = (char *) v; bh->ntake = 0;
           while (*s && bh->ntake < 8) { bh->take[bh->ntake++] = !strncmp (s, "all", 3) ? -1 : atol (s); s = strchr (s, ','); if (!s) break; s++; } }
@@ -999,7 +1053,8 @@ int main (void)
         { conns[i].resume_in = -1; out ("resume c=%d", i); MHD_resume_connection (conns[i].mc); any = 1; }
       if (any && !threaded ()) { one_round (); one_round (); }
       else if (any) usleep (50000);
-      drain_clients (); MHD_stop_daemon (d); d = NULL; drain_clients (); out ("stopped");
+      drain_clients (); MHD_stop_daemon (d); d = NULL; drain_clients ();
+      print_held ("stop"); drop_held (); out ("stopped");
       for (i = 0; i < MAXRESP; i++) if (freecb_count[i]) out ("free-cb-total rid=%d n=%d", i, freecb_count[i]);
       printf ("fired"); for (i = 1; i < F_NFAULT; i++) printf (" %s=%lu", fault_name[i], fired_count[i]);
       printf (" alloc=%lu allocs=%lu\n", alloc_fired, alloc_count);
